@@ -228,11 +228,23 @@ Definition build_deep (g : graph) (k : kind) (id : str) : res tree :=
   | KLink => build_deep_link_sliver g id
   end.
 
-(* write into an empty graph, read back *)
-Definition graph_roundtrip (t : tree) : res tree :=
-  bind (add_sliver empty_graph t) (fun g =>
-    match t_nid t with
-    | Some id => build_deep g (t_kind t) id
-    | None => Err ExAssertion
-    end).
+(* write into an empty graph, read back; a component is written under a host node that is already in
+   the graph (components are only ever written under a node) *)
+Definition host_id : str := S"host-id".
+Definition host_graph : res graph :=
+  add_node empty_graph host_id (class_label KNode) [("Name"%string, Some (S"host"))].
 
+Definition graph_roundtrip (t : tree) : res tree :=
+  if kind_eqb (t_kind t) KComponent then
+    bind host_graph (fun g1 =>
+    bind (add_component_sliver g1 host_id t) (fun g =>
+      match t_nid t with
+      | Some id => build_deep g KComponent id
+      | None => Err ExAssertion
+      end))
+  else
+    bind (add_sliver empty_graph t) (fun g =>
+      match t_nid t with
+      | Some id => build_deep g (t_kind t) id
+      | None => Err ExAssertion
+      end).
